@@ -179,9 +179,9 @@ JudgeStepRv(ev, st) ==
       \* end means continuing behind its current position
       Let1(Exec(st.variant, Adapt(OffAddr(st, OrigOff(st, off)), W(st)), wb, name, m), LAMBDA r0 :
       Let1(IF Adapt(r0.ip, 8) = OffAddr(st, OrigOff(st, off) + 4) THEN [r0 EXCEPT !.ip = Adapt(OffAddr(st, off + 4), W(st))] ELSE r0, LAMBDA r :
-      IF \E i \in 1..Len(r.mw) : Len(Strip(Add(r.mw[i].a, FromNat(Len(r.mw[i].b), 1), 9))) > 8
-         \/ \E q \in 1..Len(MemReadOf(name, wb, m, W(st))) :
-               Len(Strip(Add(MemReadOf(name, wb, m, W(st))[q].a, FromNat(MemReadOf(name, wb, m, W(st))[q].n, 1), 9))) > 8
+      IF (\E i \in 1..Len(r.mw) : Len(Strip(Add(r.mw[i].a, FromNat(Len(r.mw[i].b), 1), 9))) > 8)
+         \/ (\E q \in 1..Len(MemReadOf(name, wb, m, W(st))) :
+               Len(Strip(Add(MemReadOf(name, wb, m, W(st))[q].a, FromNat(MemReadOf(name, wb, m, W(st))[q].n, 1), 9))) > 8)
       THEN Pass([NoState EXCEPT !.run1 = st.run1])       \* the access wraps around the address space: outside the property
       ELSE IF ev.panic # "" THEN Fail("panic", "no panic", ev.panic, [NoState EXCEPT !.run1 = st.run1])
       ELSE
